@@ -176,8 +176,8 @@ def gen_cases(cssutils, rng, n, counts):
                 # a character the sheet encoding cannot encode is written as an escape (C08; C03-comment-unencodable)
                 counts['skip-unencodable'] = counts.get('skip-unencodable', 0) + 1
                 continue
-            if not S.wellformed(ss) or not visible(ss):
-                counts['skip-empty-or-not-core'] = counts.get('skip-empty-or-not-core', 0) + 1
+            if not S.wellformed(ss):
+                counts['skip-not-core'] = counts.get('skip-not-core', 0) + 1
                 continue
             cases.append((level, seed, ss))
     return cases
